@@ -72,6 +72,20 @@ func (pConn *PFCPConn) HandlePFCPMsg(buf []byte) {
 	m := metrics.NewMessage(msgType, "Incoming")
 
 	switch msg.MessageType() {
+	case message.MsgTypeSessionEstablishmentRequest, message.MsgTypeSessionModificationRequest,
+		message.MsgTypeSessionDeletionRequest, message.MsgTypeSessionReportResponse:
+		// session messages and the clean-up of Shutdown exclude each other (Shutdown is never called from the
+		// handler of a session message); nothing is done any more for an association that has ended
+		pConn.sessionsMu.Lock()
+		defer pConn.sessionsMu.Unlock()
+
+		if pConn.shutdownStarted.Load() {
+			logger.PfcpLog.Warnf("ignoring %s from %s: the association has ended", msgType, addr)
+			return
+		}
+	}
+
+	switch msg.MessageType() {
 	// Connection related messages
 	case message.MsgTypeHeartbeatRequest:
 		reply, err = pConn.handleHeartbeatRequest(msg)
